@@ -35,9 +35,16 @@ pub use crate::tdes::{TdesEde2, TdesEde3, TdesEee2, TdesEee3};
 ///
 /// Returns 1 if the key is weak; otherwise, returns 0.
 fn weak_key_test(key: u64) -> u8 {
+    let key = key & PARITY_MASK;
     let mut is_weak = 0u8;
     for &weak_key in crate::consts::WEAK_KEYS {
-        is_weak |= u8::from(key == weak_key);
+        is_weak |= u8::from(key == weak_key & PARITY_MASK);
     }
     is_weak
 }
+
+/// Mask clearing the parity bit (least significant bit) of every key byte.
+///
+/// DES ignores the parity bits, so keys which differ only in them are the same key.
+/// The mask is the same in every byte and thus independent of the byte order.
+const PARITY_MASK: u64 = 0xFEFE_FEFE_FEFE_FEFE;
